@@ -280,6 +280,7 @@ pub enum Part {
     C17,
     C19,
     C14,
+    Bfs(crate::bfs::BfsSpec),
 }
 
 fn nt_ev(name: &'static str) -> fn(&Events) -> bool {
@@ -365,6 +366,34 @@ pub fn parts(id: &str, tier: &str) -> Option<(Vec<Part>, Info)> {
             v.push(Part::Pair(p));
         } else {
             v.push(Part::Hist(spec));
+        }
+        if matches!(id, "C01" | "C02" | "C03" | "C04" | "C09" | "C10" | "C15" | "C16" | "C20") {
+            // engine 2: bounded-exhaustive exploration on (u8,u8) with prefix lengths <= w
+            let first = match v.first() {
+                Some(Part::Hist(f)) => Some(f.clone()),
+                _ => None,
+            };
+            if let Some(first) = first {
+                let mk_bfs = |maxlen: u8, max_depth: usize, state_cap: usize, canonical_only: bool, full: bool| crate::bfs::BfsSpec {
+                    id: first.id,
+                    focus: first.focus,
+                    accept: first.accept.clone(),
+                    maxlen,
+                    max_depth,
+                    state_cap,
+                    full_queries: full,
+                    canonical_only,
+                    panic_ops: first.panic_ops.clone(),
+                };
+                if tier == "thorough" {
+                    v.push(Part::Bfs(mk_bfs(2, 1000, 2_000_000, false, true)));
+                    v.push(Part::Bfs(mk_bfs(3, 1000, 60_000, true, false)));
+                    v.push(Part::Bfs(mk_bfs(3, 1000, 120_000, false, false)));
+                } else {
+                    v.push(Part::Bfs(mk_bfs(2, 1000, 2_000_000, false, false)));
+                    v.push(Part::Bfs(mk_bfs(3, 4, 12_000, id == "C15" || id == "C16", false)));
+                }
+            }
         }
         if matches!(id, "C01" | "C02" | "C03" | "C04" | "C09" | "C10" | "C18" | "C20") {
             // the same generated histories through the PrefixSet API
@@ -487,6 +516,7 @@ pub fn run_check(id: &str, tier: &str, seed: u64, replay: Option<&str>) -> i32 {
                 let o2 = match part {
                     Part::Hist(s) => run_hist_check(s, seed),
                     Part::Pair(s) => run_pair_check(s, seed),
+                    Part::Bfs(b) => crate::bfs::run_bfs(b),
                     Part::C17 => crate::c17::run_c17(tier, seed),
                     Part::C19 => crate::c19::run_c19_check(tier, seed),
                     Part::C14 => {
